@@ -134,7 +134,62 @@ func genClaim(r *rand.Rand) ClaimIn {
 		c.Pool, c.Ps = true, "other"
 	}
 	c.Fin = r.IntN(5) == 0
+	// one NodeClaim in four is created with finalizers of other controllers (one or two; with Fin karpenter's own sits
+	// after the first of them)
+	if r.IntN(4) == 0 {
+		c.Ff = foreignFinalizers[:1+r.IntN(2)]
+	}
+	// one in four: the provider's error text is not the short ASCII default
+	if r.IntN(4) == 0 {
+		m := pick(r, errShapes)
+		c.Em = &m
+	}
 	return c
+}
+
+var foreignFinalizers = []string{"backup.example.com/snapshot", "example.com/provider-cleanup"}
+
+// errShapes: provider error texts around truncateMessage's limit (300): short; 299 / 300 / 301 ASCII bytes; multi-byte
+// texts just below / at / above 300 BYTES with far fewer than 300 characters; texts with more than 300 characters of
+// 2..4 bytes each; an ASCII head followed by multi-byte characters. Byte 300 of the text is always a character boundary
+// (errMsgOK): a LaunchFailed message cut inside a character reaches the API server as U+FFFD and is re-patched on
+// every pass — churn the model does not describe.
+var errShapes = func() []ErrMsg {
+	all := []ErrMsg{{10, 1, 0}, {0, 1, 299}, {0, 1, 300}, {0, 1, 301}, {0, 1, 700},
+		{0, 3, 99}, {0, 3, 100}, {0, 3, 120}, {0, 3, 161}, {0, 2, 149}, {0, 2, 150}, {0, 2, 200}, {0, 4, 75}, {0, 4, 100},
+		{0, 2, 400}, {0, 3, 300}, {0, 3, 301}, {0, 4, 330},
+		{150, 3, 60}, {100, 2, 120}, {296, 4, 2}, {300, 3, 40}, {20, 4, 70}, {60, 3, 80}, {277, 3, 50}}
+	var out []ErrMsg
+	for _, m := range all {
+		if errMsgOK(m) {
+			out = append(out, m)
+		}
+	}
+	return out
+}()
+
+func errMsgOK(m ErrMsg) bool { return m.aligned(300) }
+
+func errLabel(m *ErrMsg) string {
+	if m == nil {
+		return "provider-error-text=default"
+	}
+	size := "<300B"
+	switch {
+	case m.bytes() == 300:
+		size = "=300B"
+	case m.bytes() > 300:
+		size = ">300B"
+	}
+	chars := "<300chars"
+	if m.runes() >= 300 {
+		chars = ">=300chars"
+	}
+	kind := "ascii"
+	if m.W > 1 && m.N > 0 {
+		kind = "multibyte"
+	}
+	return "provider-error-text=" + kind + size + "," + chars
 }
 
 // dnsOff: values of the karpenter.sh/do-not-sync-taints label that do NOT opt out (only the exact string "true" does)
@@ -541,6 +596,8 @@ func histLabels(raw json.RawMessage, implV any) []string {
 	set[fmt.Sprintf("len<=%d", ((len(in.Steps)/10)+1)*10)] = true
 	set[fmt.Sprintf("startup=%d", len(in.Claim.Startup))] = true
 	set[fmt.Sprintf("res=%d", in.Claim.Res)] = true
+	set[fmt.Sprintf("foreign-finalizers=%d,own=%v", len(in.Claim.Ff), in.Claim.Fin)] = true
+	set[errLabel(in.Claim.Em)] = true
 	payload := func(t Taint) string {
 		switch {
 		case t[2] != "" && t[3] != "":
@@ -644,9 +701,25 @@ func histLabels(raw json.RawMessage, implV any) []string {
 				if c.Ok {
 					okCreates++
 				}
+				if len(s.View.Ff) > 0 {
+					set[fmt.Sprintf("create-reached:foreign-finalizers-on-view,own-on-view=%v", s.View.Fin)] = true
+				}
+				if in.Claim.Em != nil {
+					set["create-answer-with-long-or-multibyte-text:"+strings.SplitN(lastCreate(s.Calls), ":", 2)[1]] = true
+				}
+			}
+			if s.Claim.Lm > 0 {
+				if s.Claim.Lm > 300 {
+					set["launch-failed-message:truncated"] = true
+				} else {
+					set["launch-failed-message:whole"] = true
+				}
 			}
 			if s.Rec && s.View.Del {
 				set["deletion-path"] = true
+				if len(s.View.Ff) > 0 {
+					set["deletion-path:foreign-finalizers-still-on-view"] = true
+				}
 			}
 			if strings.HasPrefix(s.Result, "after:") {
 				set["result:after"] = true
@@ -691,6 +764,16 @@ func histLabels(raw json.RawMessage, implV any) []string {
 	return out
 }
 
+func lastCreate(calls []string) string {
+	out := "create:none"
+	for _, c := range calls {
+		if strings.HasPrefix(c, "create:") {
+			out = c
+		}
+	}
+	return out
+}
+
 // signature: which clause family a failing history belongs to (used only to match known findings)
 func histSignature(_ json.RawMessage, implV any) string {
 	o := decodeOut(implV)
@@ -699,6 +782,9 @@ func histSignature(_ json.RawMessage, implV any) string {
 	}
 	ok := 0
 	for _, s := range o.Steps {
+		if s.Result == "panic" {
+			return "reconcile-panic"
+		}
 		for _, c := range s.Creates {
 			if c.Ok {
 				ok++
@@ -760,6 +846,16 @@ func histShrink(raw json.RawMessage) []any {
 			}
 			out = append(out, In{Claim: in.Claim, Steps: cp})
 		}
+	}
+	if len(in.Claim.Ff) > 0 {
+		c := in.Claim
+		c.Ff = c.Ff[:len(c.Ff)-1]
+		out = append(out, In{Claim: c, Steps: in.Steps})
+	}
+	if in.Claim.Em != nil {
+		c := in.Claim
+		c.Em = nil
+		out = append(out, In{Claim: c, Steps: in.Steps})
 	}
 	if len(in.Claim.Startup) > 0 || len(in.Claim.Taints) > 0 || in.Claim.labelled() || in.Claim.Res != 0 {
 		c := in.Claim
@@ -901,6 +997,51 @@ func enumFaults(t core.Tier) []any {
 			}
 		}
 	}
+	// the same scripts for NodeClaims created with finalizers of other controllers (karpenter's own absent / in the
+	// middle / after them) and for providers whose error text is long and / or multi-byte: fault free, and one fault at
+	// the first reconcile — every error class of the finalizer patch, every provider outcome, a failing delete after a
+	// capacity error — followed by retries on the current and on a lagging copy
+	variants := []ClaimIn{}
+	for _, v := range []struct {
+		ff  []string
+		fin bool
+		em  *ErrMsg
+	}{
+		{foreignFinalizers[:1], false, nil}, {foreignFinalizers[:2], false, nil}, {foreignFinalizers[:1], true, nil}, {foreignFinalizers[:2], true, nil},
+		{nil, false, &ErrMsg{0, 3, 120}}, {nil, false, &ErrMsg{0, 1, 300}}, {nil, true, &ErrMsg{0, 2, 400}}, {foreignFinalizers[:1], false, &ErrMsg{150, 3, 60}},
+		{nil, false, &ErrMsg{0, 4, 75}}, {nil, false, &ErrMsg{0, 1, 299}},
+	} {
+		c := claim
+		c.Ff, c.Fin, c.Em = v.ff, v.fin, v.em
+		variants = append(variants, c)
+	}
+	vbases := [][]Step{bases[0], bases[len(bases)-1]}
+	if t == core.Thorough {
+		vbases = append(append([][]Step{}, bases[:6]...), bases[len(bases)-1])
+	}
+	for _, c := range variants {
+		for _, base := range vbases {
+			out = append(out, In{Claim: c, Steps: base})
+			for _, k := range kinds {
+				if !(k.site == "create" || k.site == "nc.patch.lock" || k.site == "nc.delete" || k.site == "nc.status") {
+					continue
+				}
+				f := Step{K: "rec"}
+				if k.site == "create" {
+					f.Create = k.class
+				} else {
+					f.F = map[string]string{k.site: k.class}
+				}
+				if k.site == "nc.delete" {
+					f.Create = "ice"
+				}
+				for _, retryLag := range []int{0, 2} {
+					steps := append([]Step{f, {K: "rec", Lag: retryLag, Create: f.Create}, {K: "rec"}}, base...)
+					out = append(out, In{Claim: c, Steps: steps})
+				}
+			}
+		}
+	}
 	if t == core.Thorough {
 		// fault pairs on the first two reconciles (launch) and on the registration reconcile and its retry
 		base := scriptSteps(orders[0], false, 0)
@@ -953,11 +1094,20 @@ func enumTimeouts(t core.Tier) []any {
 		for _, mode := range modes {
 			for _, off := range offsets {
 				for _, fk := range faults {
-					for _, fin := range []bool{false, true} {
-						if fin && !(fk.site == "" || fk.site == "np.get") {
+					for vi, fin := range []bool{false, true, false, false} {
+						if vi > 0 && !(fk.site == "" || fk.site == "np.get") {
 							continue
 						}
 						c := ClaimIn{Startup: []Taint{tStartA}, Taints: []Taint{}, Res: 0, Pool: pl.pool, Ps: pl.ps, Fin: fin}
+						switch vi {
+						case 2: // created with another controller's finalizer
+							c.Ff = foreignFinalizers[:1]
+						case 3: // the provider's error text is long and multi-byte (matters when the launch keeps failing)
+							if !strings.HasPrefix(mode, "launch:") || fk.site != "" {
+								continue
+							}
+							c.Em = &ErrMsg{0, 3, 120 + 20*len(out)%3}
+						}
 						create, edge := "", 900
 						if strings.HasPrefix(mode, "launch:") {
 							create, edge = strings.TrimPrefix(mode, "launch:"), 300
@@ -1213,7 +1363,7 @@ func Ops() []*core.Op {
 	return []*core.Op{
 		{
 			Name: "c14.lifecycle",
-			Doc:  "the real lifecycle.Controller.Reconcile on the fake client + fake cloud provider, driven by random histories: reconciles (fresh or lagging copy, injected faults on every API write / node list / provider Create) interleaved with node events, clock steps to the liveness edges and user deletes; one controller (launch cache kept) per history",
+			Doc:  "the real lifecycle.Controller.Reconcile on the fake client + fake cloud provider, driven by random histories: reconciles (fresh or lagging copy, injected faults on every API write / node list / provider Create) interleaved with node events, clock steps to the liveness edges and user deletes; one controller (launch cache kept) per history; one NodeClaim in four is created with one or two finalizers of other controllers (karpenter's own absent / after the first of them), one in four meets a provider whose error text is long and / or multi-byte (around the 300-byte limit of truncateMessage)",
 			N: func(t core.Tier) int {
 				if t == core.Thorough {
 					return 20000
@@ -1230,7 +1380,7 @@ func Ops() []*core.Op {
 		},
 		{
 			Name:           "c14.faults",
-			Doc:            "the same controller on scripted histories: node appears, then Ready / startup taint removed / kubelet taint removed / extended resource reported in every order (6 orders quick, all 24 thorough), a reconcile after every event; for every reconcile position and every (call site, error class) one injected fault followed by the retry (on the current or a lagging copy); thorough adds all fault pairs on launch and registration",
+			Doc:            "the same controller on scripted histories: node appears, then Ready / startup taint removed / kubelet taint removed / extended resource reported in every order (6 orders quick, all 24 thorough), a reconcile after every event; for every reconcile position and every (call site, error class) one injected fault followed by the retry (on the current or a lagging copy); thorough adds all fault pairs on launch and registration; the first and the last script (thorough: the first six and the last) again for NodeClaims created with finalizers of other controllers (4 layouts) and for providers with long / multi-byte error texts (6 shapes): fault free and with one fault at the first reconcile (finalizer patch, provider outcome, delete after a capacity error, status patch) retried on the current and on a lagging copy",
 			N:              func(core.Tier) int { return 0 },
 			Enum:           enumFaults,
 			Impl:           impl,
@@ -1248,7 +1398,7 @@ func Ops() []*core.Op {
 			Enum:           enumTimeouts,
 			Impl:           impl,
 			Rule:           "non-trivial = provider Create is reached",
-			ExhaustiveNote: "5 NodePool states x {launch fails gen / cerr, never registers, two nodes} x deadline offsets x {no fault, NodePool read notfound / err, delete notfound / err, status err, metadata notfound} x finalizer pre-set or not",
+			ExhaustiveNote: "5 NodePool states x {launch fails gen / cerr, never registers, two nodes} x deadline offsets x {no fault, NodePool read notfound / err, delete notfound / err, status err, metadata notfound} x finalizer pre-set or not / another controller's finalizer present / (launch fails:) a 360..366-byte multi-byte provider error text",
 			Nontrivial:     reachedCreate,
 			Labels:         histLabels,
 			Signature:      histSignature,
